@@ -648,6 +648,29 @@ pub proof fn lemma_lex_cmp_antisymmetric<T: PartialOrd>(ls: Seq<T>, rs: Seq<T>, 
     }
 }
 
+/// `a < b` and `b < c` give `a < c` in the lexicographic order, provided the element order is a strict order whose equal
+/// elements are interchangeable (numbers: K1's `cmp_transitive`; characters and bytes: their natural order, assumed)
+//@@LEMMA C12
+pub proof fn lemma_lex_cmp_transitive<T: PartialOrd>(a: Seq<T>, b: Seq<T>, c: Seq<T>, k: int)
+    requires
+        forall|x: T, y: T, z: T| #![trigger x.partial_cmp_spec(&y), y.partial_cmp_spec(&z)]
+            x.partial_cmp_spec(&y) == Some(Ordering::Less) && y.partial_cmp_spec(&z) == Some(Ordering::Less) ==> x.partial_cmp_spec(&z) == Some(Ordering::Less),
+        forall|x: T, y: T, z: T| #![trigger x.partial_cmp_spec(&y), y.partial_cmp_spec(&z)]
+            x.partial_cmp_spec(&y) == Some(Ordering::Equal) ==> x.partial_cmp_spec(&z) == y.partial_cmp_spec(&z),
+        forall|x: T, y: T, z: T| #![trigger x.partial_cmp_spec(&y), y.partial_cmp_spec(&z)]
+            y.partial_cmp_spec(&z) == Some(Ordering::Equal) ==> x.partial_cmp_spec(&y) == x.partial_cmp_spec(&z),
+        lex_cmp(a, b, k) == Some(Ordering::Less), lex_cmp(b, c, k) == Some(Ordering::Less),
+    ensures lex_cmp(a, c, k) == Some(Ordering::Less)
+    decreases a.len() - k
+{
+    if k >= 0 && k < a.len() && k < b.len() && k < c.len() {
+        let ab = a[k].partial_cmp_spec(&b[k]); let bc = b[k].partial_cmp_spec(&c[k]);
+        if ab == Some(Ordering::Equal) && bc == Some(Ordering::Equal) {
+            lemma_lex_cmp_transitive(a, b, c, k + 1);
+        }
+    }
+}
+
 /// which of the four range instructions `make_range_internal` is running
 pub open spec fn range_instruction(start_exclusive: bool, end_exclusive: bool) -> Instruction {
     if start_exclusive { if end_exclusive { Instruction::MakeExclusiveRange } else { Instruction::MakeStartExclusiveRange } }
